@@ -61,17 +61,29 @@ def cmd_run(d, checks):
         # demonstration
         dp = meta.get("demo_path")
         demo_src = os.path.join(d, "demo")
-        if dp and os.path.isdir(demo_src):
-            for fn in os.listdir(demo_src):
-                rel = os.path.join(os.path.dirname(dp), fn) if not os.path.isdir(os.path.join(REPO, dp)) else os.path.join(dp, fn)
-                shutil.copy(os.path.join(demo_src, fn), os.path.join(REPO, rel))
+        files = []
+        for root, _, fns in os.walk(demo_src):
+            for fn in fns:
+                files.append(os.path.join(root, fn))
+        if dp and files:
+            import re
+            cmd = re.sub(r"^\s*cd\s+\S+\s*&&\s*", "", meta["demo_cmd"])
+            for f in files:
+                rel = os.path.relpath(f, demo_src)
+                if len(files) == 1 or os.path.dirname(rel) == "":
+                    # a single file (or flat layout): put it at / next to demo_path
+                    rel = dp if len(files) == 1 and dp.endswith(".go") else os.path.join(os.path.dirname(dp) if dp.endswith(".go") else dp, os.path.basename(f))
+                os.makedirs(os.path.dirname(os.path.join(REPO, rel)), exist_ok=True)
+                shutil.copy(f, os.path.join(REPO, rel))
                 demo_files.append(rel)
-            rc, out = sh(meta["demo_cmd"].replace(meta.get("worktree", "\0"), REPO), cwd=REPO, timeout=900)
+            rc, out = sh(cmd, cwd=REPO, timeout=1200)
             result["demo_fails_with_change"] = rc != 0
-            sh(["git", "stash", "-q"], cwd=REPO)  # library change away, demo (untracked) stays
-            rc2, out2 = sh(meta["demo_cmd"].replace(meta.get("worktree", "\0"), REPO), cwd=REPO, timeout=900)
-            sh(["git", "stash", "pop", "-q"], cwd=REPO)
+            sh(["git", "apply", "-R", os.path.join(os.path.abspath(d), "patch.diff")], cwd=REPO)
+            rc2, out2 = sh(cmd, cwd=REPO, timeout=1200)
+            sh(["git", "apply", os.path.join(os.path.abspath(d), "patch.diff")], cwd=REPO)
             result["demo_passes_without_change"] = rc2 == 0
+            if rc2 != 0:
+                print("demo on the unchanged tree:\n" + out2[-800:])
             for f in demo_files:
                 try:
                     os.remove(os.path.join(REPO, f))
